@@ -3,6 +3,7 @@ package main
 import (
 	"encoding/json"
 	"fmt"
+	"regexp"
 	"strings"
 
 	"mltwist/internal/consoleui/verifh/uix"
@@ -71,15 +72,22 @@ func c31Expect(s *uix.Session, line string, cur int, listing []string) (int, boo
 		}
 		return cur, false, true
 	case "f", "find", "/":
-		if len(f) != 2 {
+		if len(f) < 2 || strings.Contains(line, "  ") || strings.HasPrefix(line, " ") || strings.HasSuffix(line, " ") {
 			return 0, false, false // not judged
 		}
-		pat := f[1]
-		match := func(l string) bool {
-			if pat == "^$" {
-				return l == ""
+		// the pattern is everything after the command word (words separated by
+		// single spaces); matching is decided by the standard library's POSIX
+		// regex engine, plain substring search for patterns without metacharacters
+		pat := strings.Join(f[1:], " ")
+		var match func(l string) bool
+		if !strings.ContainsAny(pat, `\.+*?()|[]{}^$`) {
+			match = func(l string) bool { return strings.Contains(l, pat) }
+		} else {
+			re, err := regexp.CompilePOSIX(pat)
+			if err != nil {
+				return cur, false, true
 			}
-			return strings.Contains(l, pat)
+			match = re.MatchString
 		}
 		for k := 1; k < n; k++ {
 			i := (cur + k) % n
@@ -136,8 +144,8 @@ func c31Replay(c c31Case) (*uix.Session, *eng.Fail) {
 func init() {
 	checks["C31"] = eng.Check{
 		Hist:        true,
-		Rule:        "explicit-state BFS to closure over (code order, cursor) on the 3-block and the loop-with-gap programs from 4 roots (initial, after an instruction move, after a block move, after both); menu in every state: down/up N and goto N for N in {0,1,2,3,Len-2,Len-1,Len,Len+1,2^31}, entry, find P for P in {addi, Block, sw, jal, ecall, zzz, ^$, the text unique to the cursor line's neighbours}; model cursor computed independently (entry = header line of the entry instruction's block + 1 + its current index; find = first matching line after the cursor, cyclically, excluding the cursor line); a command that cannot be performed must show an error and leave the cursor unchanged. Non-trivial = command that moves the cursor.",
-		Assumptions: []string{"find patterns are literal strings or ^$ (judged with substring matching, not with the regex engine)"},
+		Rule:        "explicit-state BFS to closure over (code order, cursor) on the 3-block and the loop-with-gap programs from 4 roots (initial, after an instruction move, after a block move, after both); menu in every state: down/up N and goto N for N in {0,1,2,3,Len-2,Len-1,Len,Len+1,2^31}, entry, find P for 28 patterns P (single words, several words, POSIX regex syntax in the first, a later or every word, alternations, anchors, invalid regexes in the first or a later word, patterns matching nothing); model cursor computed independently (entry = header line of the entry instruction's block + 1 + its current index; find = first matching line after the cursor, cyclically, excluding the cursor line); a command that cannot be performed must show an error and leave the cursor unchanged. Non-trivial = command that moves the cursor.",
+		Assumptions: []string{"the expected match set of a find pattern is computed with the standard library's POSIX regex engine (substring search for patterns without metacharacters)", "find lines with leading, trailing or doubled spaces are not judged"},
 		Run: func(r *eng.Run) {
 			for _, pn := range []string{"three-blocks", "loop-with-gap", "one-instruction", "sym-blocks"} {
 				p := progByName(pn)
@@ -153,7 +161,10 @@ func init() {
 					}
 					menu = append(menu, fmt.Sprintf("d %d", v), fmt.Sprintf("u %d", v), fmt.Sprintf("g %d", v))
 				}
-				menu = append(menu, "entry", "f addi", "f Block", "f sw", "f jal", "f ecall", "f zzz", "f ^$", "f x3", "f 0x1", "f nop")
+				menu = append(menu, "entry", "f addi", "f Block", "f sw", "f jal", "f ecall", "f zzz", "f ^$", "f x3", "f 0x1", "f nop",
+					// several words, and regex syntax in the first / a later / every word
+					"f addi x1", "f x1, x0", "f Block 2", "f addi x[12]", "f x[0-9], x0", "f a.di x1", "f ^ +sw", "f jal|sw", "f (addi|jal) x",
+					"f addi x9|zzz", "f 13 0[0-9] ", "f \\| 13", "f [", "f addi (", "f x1 x[", "f zzz q*", "f k+ addi")
 				roots := [][]uiLine{nil, {{Line: "m 1 2"}}, {{Line: "m 0 5"}}, {{Line: "m 0 5"}, {Line: "m 6 7"}}, {{Line: "m 3 1"}}}
 				seen := map[string]bool{}
 				var queue [][]uiLine
